@@ -49,9 +49,11 @@ def plan(prop, tier):
     """list of campaign parts: dict(sub, chunks or None (time-boxed share), runs per chunk, options)"""
     if prop == "C11":
         if tier == "quick":
-            return [dict(sub="sched", chunks=460, share=1.0), dict(sub="sched-fat", chunks=40, fat=True), dict(sub="sched-big", chunks=32, big=True)]
+            return [dict(sub="sched", chunks=460, share=1.0), dict(sub="sched-fat", chunks=40, fat=True), dict(sub="sched-big", chunks=32, big=True),
+                    dict(sub="sched-scale", chunks=12, scale=True)]
         return [dict(sub="sched", chunks=None, share=0.76), dict(sub="sched-fat", chunks=None, share=0.1, fat=True),
-                dict(sub="sched-big", chunks=None, share=0.07, big=True), dict(sub="sched-shipped", chunks=None, share=0.07, shipped_batch=True)]
+                dict(sub="sched-big", chunks=None, share=0.07, big=True), dict(sub="sched-shipped", chunks=None, share=0.04, shipped_batch=True),
+                dict(sub="sched-scale", chunks=None, share=0.03, scale=True)]
     if tier == "quick":
         return [
             dict(sub="sweep", chunks=40, sweep=True, max_records=7),
@@ -62,6 +64,7 @@ def plan(prop, tier):
             dict(sub="locked-fat", chunks=20, fat=True),
             dict(sub="ordinary-fat", chunks=20, fat=True),
             dict(sub="ordinary-big", chunks=16, big=True),
+            dict(sub="ordinary-scale", chunks=12, scale=True),
         ]
     return [
         dict(sub="sweep", chunks=None, share=0.25, sweep=True, max_records=9),
@@ -72,7 +75,8 @@ def plan(prop, tier):
         dict(sub="locked-fat", chunks=None, share=0.03, fat=True),
         dict(sub="ordinary-fat", chunks=None, share=0.04, fat=True),
         dict(sub="ordinary-big", chunks=None, share=0.05, big=True),
-        dict(sub="ordinary-shipped", chunks=None, share=0.05, shipped_batch=True),
+        dict(sub="ordinary-shipped", chunks=None, share=0.03, shipped_batch=True),
+        dict(sub="ordinary-scale", chunks=None, share=0.02, scale=True),
     ]
 
 
@@ -162,9 +166,9 @@ def main():
 
         def mkjob(part, chunk):
             return dict(
-                repo=repo, prop=prop, sub=part["sub"].replace("-shipped", "").replace("-big", "").replace("-fat", ""), base_seed=seed, chunk=chunk, runs=campaign.RUNS_PER_CHUNK,
+                repo=repo, prop=prop, sub=part["sub"].replace("-shipped", "").replace("-big", "").replace("-fat", "").replace("-scale", ""), base_seed=seed, chunk=chunk, runs=campaign.RUNS_PER_CHUNK,
                 known_keys=known_keys, recheck=97, sweep=part.get("sweep", False), max_records=part.get("max_records", 24),
-                shipped_batch=part.get("shipped_batch", False), big=part.get("big", False), fat=part.get("fat", False), label=part["sub"],
+                shipped_batch=part.get("shipped_batch", False), big=part.get("big", False), fat=part.get("fat", False), scale=part.get("scale", False), label=part["sub"],
             )
 
         if args.tier == "quick":
